@@ -186,7 +186,7 @@ func printable(n int, seed uint64) []byte {
 // natural returns the well-formed body of e.
 func natural(d *domain, e Elem) []byte {
 	ti := d.info(e)
-	n := clampN(e.N, 4096)
+	n := clampN(e.N, 20000)
 	switch ti.name {
 	case "CaFormatEntry":
 		mode := uint64(0o100644)
@@ -543,6 +543,13 @@ func fixtures() (map[string]*fixture, error) {
 			}
 			add(filepath.Base(p), domFormat, b, "format", "archive", "untar", "indexfile")
 		}
+		// archives whose root is a single regular file: no goodbye, depth 0 at the end
+		single := func(n int) []byte {
+			b, _ := buildStream("format", domFormat, []Elem{{T: "CaFormatEntry", SK: "exact", Seed: 7}, {T: "CaFormatPayload", N: n, SK: "exact", Seed: 8}})
+			return b
+		}
+		add("single.catar", domFormat, single(40), "format", "archive", "untar")
+		add("single-big.catar", domFormat, single(9000), "format", "archive", "untar")
 		s2c, c2s, err := recordSession()
 		if err != nil {
 			fixErr = fmt.Errorf("recording the protocol session: %v", err)
